@@ -1,9 +1,11 @@
-"""Native side check of the bounded symbolic properties C05 / C06 (bounded, sampled, real torch): the SAME harness cases
+"""Native side check of the bounded symbolic properties C05 / C06 / C12 (bounded, sampled, real torch): the SAME harness cases
 (symtorch/harness/symharness/cNN.py: same construction of the inputs, same independent dense specification) at sizes
 BEYOND the bound of the symbolic run, executed with the numeric backend on seeded random values of every symbol.
 
   C05: Hamiltonian MPO vs dense Hamiltonian at N = 8, 9, 10 (dim 2) and N = 6, 7 (dim 3), random interaction patterns,
        Rydberg and XY
+  C12: emu-sv state constructors from amplitudes at N = 5 .. 8, state algebra at N = 4 .. 6, dense operator constructors
+       from the abstract representation at N = 4, 5
   C06: emu-sv Hamiltonian action at N = 5 .. 9 (random zero/non-zero phase patterns, all pairs / chain / random subset
        of interactions), Lindbladian action at N = 3, 4 with 0-2 jump operators
 
@@ -61,6 +63,30 @@ def plan(prop, rnd):
                     out.append(dict(kind="lindblad", N=N, phi=phi, U=c06._all_pairs(N), jumps=jumps, gpu=False,
                                     rho="hermitian", param_dtype="complex128"))
         return c06, out
+    if prop == "C12":
+        from symharness import c12
+        for N in (5, 6, 7, 8):
+            for k in range(4):
+                s1 = "".join(rnd.choice("gr") for _ in range(N))
+                s2 = "".join(rnd.choice("gr") for _ in range(N))
+                if s1 == s2:
+                    s2 = ("r" if s1[0] == "g" else "g") + s1[1:]
+                basis, a, b = [(["r", "g"], 10, 11), (["g", "r"], 8, 9), (["r", "g"], 4, 5), (["g", "r"], 10, 11)][k]
+                out.append(dict(kind="sv_amp", N=N, basis=basis, amps=[[s1, a], [s2, b]]))
+            out.append(dict(kind="sv_amp", N=N, basis=["r", "g"], amps=[["".join(rnd.choice("gr") for _ in range(N)), 1]]))
+        for N in (4, 5, 6):
+            out.append(dict(kind="sv_alg", N=N))
+        NS = c12.NAME_SETS
+        for N in (4, 5):
+            parts = c12._partitions_into_ops(N)
+            for pi in rnd.sample(range(len(parts)), min(4, len(parts))):
+                part = parts[pi]
+                ni = rnd.randrange(len(NS))
+                term1 = [(NS[ni], tg) if k == 0 else (NS[(ni + 1) % len(NS)], tg) for k, tg in enumerate(part)]
+                term2 = [(NS[(ni + 2) % len(NS)], [N - 1])]
+                out.append(dict(kind="dense_op", N=N, basis=["r", "g"], terms=[term1]))
+                out.append(dict(kind="dense_op", N=N, basis=["g", "r"], terms=[term1, term2], target_sets=bool((pi + ni) % 2)))
+        return c12, out
     raise SystemExit(f"no beyond-the-bound plan for {prop}")
 
 
